@@ -1053,6 +1053,18 @@ func gap8EmptyName(prop string) func(g *Gen, tier string, res *GenOutput) {
 		}
 		res.Hists = append(res.Hists, RunHist("column-named-empty-string", frames, ops))
 		bump(res.Stats, "column-named-empty-string")
+		if prop == "C20" {
+			// a row bringing several new columns, one of them named "": whatever order the library adds them in,
+			// the call either succeeds completely or leaves the frame as it was (several attempts: the order in
+			// which a Go map is walked differs from call to call)
+			half := F64Cell(0.5)
+			for i := 0; i < 8; i++ {
+				fr := mkFrame(intCol("id", 1, 2, 3), strCol("name", "a", "b", "c"))
+				row := []KV{{K: "", V: half}, {K: "extra", V: BoolCell(true)}, {K: "id", V: IntCell("int", 4)}, {K: "more", V: half}, {K: "name", V: StrCell("d")}, {K: "zz", V: half}}
+				res.Hists = append(res.Hists, RunHist("row-with-new-columns-one-unnamed", []Frame{fr}, []Op{{K: "appendrow", F: 0, Row: row}, {K: "nrows", F: 0}}))
+				bump(res.Stats, "row-with-new-columns-one-unnamed")
+			}
+		}
 	}
 }
 
